@@ -76,8 +76,14 @@ def dupCollision (c : ExecCase) : Bool :=
     not import anything, no import cycle may be reported. -/
 def isDpCompile (line : String) : Bool := (words line).head? == some "dpcompile"
 
+/-- A custom descriptor.proto that imports nothing, k leaf files and a file importing them: an
+    acyclic graph of good files, so by `outcome_deterministic` the call succeeds at every
+    parallelism, request order and schedule. -/
+def isDpPlain (line : String) : Bool := (words line).head? == some "dpplain"
+
 def execModel (line : String) : String :=
   if isDpCompile line then "nondet" else
+  if isDpPlain line then "ok" else
   match parseExec line with
   | none => "bad-op"
   | some c =>
@@ -124,6 +130,10 @@ def dpSpec (ans : String) : String :=
 
 def execSpec (line ans : String) : String :=
   if isDpCompile line then dpSpec ans else
+  if isDpPlain line then
+    (if ans == "ok" then "holds"
+     else if ans.startsWith "hang" then s!"fails outcome-depends-on-schedule hang with a custom descriptor.proto ({ans})"
+     else s!"fails outcome-depends-on-schedule {ans}") else
   match parseExec line with
   | none => "skip"
   | some c =>
